@@ -538,7 +538,7 @@ func Main(run *hx.Run) {
 	}
 	for _, comp := range Comps {
 		r := run.R.Fork(comp)
-		n := run.Scale(260)
+		n := run.Scale(2500)
 		for k := 0; k < n; k++ {
 			cap := r.Range(1, 12)
 			if run.Thorough() && r.Chance(1, 5) {
@@ -595,16 +595,27 @@ func Main(run *hx.Run) {
 		// every history of length <= 6 over a 9-letter alphabet, cap 3 (index 3 is out of range), both orders
 		alpha := []string{"insert 0 1 a", "insert 1 0 b", "insert 2 1 c", "insert 3 0 d", "changekey 1 2", "changekey 2 0",
 			"delete", "deleteindex 0", "deleteindex 2"}
+		alpha6 := []string{"insert 0 1 a", "insert 1 0 b", "insert 2 1 c", "changekey 1 2", "changekey 2 0", "deleteindex 0"}
 		for _, comp := range Comps {
 			for _, ord := range []string{"min", "max"} {
-				for n := 1; n <= 6; n++ {
+				for n := 1; n <= 5; n++ {
 					exhaustive(alpha, n, func(ops []string) {
 						run.Do(comp, hx.Case{Header: fmt.Sprintf("comp=%s cap=3 ord=%s", comp, ord),
 							Ops: append(ops, "dump", "peek", "containskey 0", "size")}, Exec)
 					})
 				}
+				// length 6 and 7 over the six ops that matter most for the linked structures
+				for n := 6; n <= 7; n++ {
+					if n == 7 && comp == "ibinary" {
+						continue // fully proved; length 7 only for the two linked implementations
+					}
+					exhaustive(alpha6, n, func(ops []string) {
+						run.Do(comp, hx.Case{Header: fmt.Sprintf("comp=%s cap=3 ord=%s", comp, ord),
+							Ops: append(ops, "dump", "delete", "dump")}, Exec)
+					})
+				}
 			}
 		}
-		run.Stats.Extra["exhaustive_part"] = "all histories of length<=6 over 9 ops (cap 3, one out-of-range index), 3 implementations x min/max; maxDegree for every n <= 10^6"
+		run.Stats.Extra["exhaustive_part"] = "all histories of length<=5 over 9 ops and of length 6-7 over 6 ops (cap 3, one out-of-range index), 3 implementations x min/max; maxDegree for every n <= 10^6"
 	}
 }
